@@ -1,6 +1,7 @@
 package main
 
 import (
+	"bytes"
 	"fmt"
 	"hash/fnv"
 	"math/big"
@@ -711,14 +712,35 @@ func genFMA(r *hx.RNG, l hx.Limits) *opCase {
 	}
 	x := r.Finite(n1, int64(r.Range(-40, 40)))
 	y := r.Finite(n2, int64(r.Range(-40, 40)))
+	tieP := 0
+	if r.Chance(5) {
+		// both factors far longer than the receiver needs, each an exact tie at a word boundary a little beyond the
+		// receiver's words (kept words, then B/2, then zero words kept in the mantissa): a product computed from rounded
+		// factors with an error bound has both rounding errors at their maximum; the addend then aims the sum (below)
+		tieP = r.Range(1, 60)
+		mk := func() oracle.Val {
+			kw := (tieP+18)/19 + r.Range(1, 3)
+			ds := r.Digits(19 * kw)
+			if r.Chance(70) {
+				ds[len(ds)-1] = "02468"[r.Intn(5)]
+			}
+			ds = append(ds, '5')
+			ds = append(ds, bytes.Repeat([]byte{'0'}, 18+19*r.Range(kw, kw+4))...)
+			return oracle.Val{Form: oracle.Finite, Neg: r.Bool(), Coef: hx.CoefOf(ds), Exp: int64(r.Range(-40, 40)) - int64(len(ds))}
+		}
+		x, y = mk(), mk()
+	}
 	prod := new(big.Int).Mul(x.Coef, y.Coef)
 	pe := x.Exp + y.Exp
 	dp := int(oracle.Digits(prod))
 	ple := int64(dp) + pe // lead exponent of the product
 	pneg := x.Neg != y.Neg
 	k.p = pickPrec(r, dp, l, false)
-	p := int(minI64(k.p, 5000))
 	shape := r.Intn(100)
+	if tieP > 0 {
+		k.p, shape = int64(tieP), 75 // (the sum-aimed shape)
+	}
+	p := int(minI64(k.p, 5000))
 	switch {
 	case shape < 30: // u within +-(p+3) digits of the product's leading digit
 		n3 := r.Len(l)
@@ -824,6 +846,9 @@ func genFMA(r *hx.RNG, l hx.Limits) *opCase {
 			k.u = oracle.Val{Form: oracle.Finite, Neg: a.Sign() < 0, Coef: a.Abs(a), Exp: e}.Strip()
 		}
 		k.class = "sum-aimed"
+		if tieP > 0 {
+			k.class = "sum-aimed-tie-shaped-long-factors"
+		}
 	case shape < 86: // zero product or zero u
 		switch r.Intn(3) {
 		case 0:
